@@ -151,6 +151,7 @@ def run(tier, seed):
     chk.count('work_units', len(units))
     for part in pmap(dispatch, units):
         chk.merge(part)
+    chk.expect('executions', len(prefixes) * len(setups) * len(cells))
     chk.assumptions = ["error answers restricted to the 6-letter alphabet / <=2 deviations (over-approximates what any "
                        "SDE can produce within that bound)", "each trial makes exactly 3 Brownian queries (asserted)"]
     return chk
